@@ -159,7 +159,7 @@ def run(ctx):
                       dict(base, MaxOps=4 if th else 3))
     hists = [("dc1", h) for h in ctx.generate(g1, workers=2)]
     g2 = ctx.instance("G2_VidMap", "VidMapSpec", "SPECIFICATION Spec\nINVARIANT EmitW\nVIEW View\nCHECK_DEADLOCK FALSE",
-                      dict(base, MaxOps=6 if th else 4))
+                      dict(base, MaxOps=5 if th else 4))
     for h in ctx.generate(g2, workers=2, timeout=1200):
         for dc in ("dc1", "", "dc2") if th else ("", "dc2"):
             hists.append((dc, h))
@@ -170,12 +170,12 @@ def run(ctx):
             execs.append([dict(e) for e in f["minimal"]])
     # 3. G4: seeded random long histories and goroutine storms
     rng = random.Random(ctx.seed)
-    for _ in range(1500 if th else 150):
+    for _ in range(1000 if th else 150):
         execs.append(random_sequential(rng, rng.randint(10, 30)))
     for _ in range(40 if th else 6):
         execs.append(master_client_exec(rng, rng.randint(6, 14)))
-    storms = [random_storm(rng) for _ in range(2000 if th else 200)]
-    storms += [dense_storm(rng, 60, 100) for _ in range(120 if th else 10)]
+    storms = [random_storm(rng) for _ in range(1000 if th else 200)]
+    storms += [dense_storm(rng, 60, 100) for _ in range(60 if th else 10)]
     binp = ctx.build("c35")
     s1 = os.path.join(ctx.out, "script-seq.ndjson")
     write_script(s1, execs)
@@ -194,7 +194,7 @@ def run(ctx):
                 "update the driver looks up every volume through all 4 read paths and re-reads every held slice; "
                 "a few executions drive a real MasterClient over gRPC against a stand-in master that drops the stream (reconnect) "
                 "and resends its registry; thorough: the storms again under the race detector. non-trivial = contains a delete and >= 5 events; "
-                "distinct by hash of the recorded execution" % (4 if th else 3, 6 if th else 4))
+                "distinct by hash of the recorded execution" % (4 if th else 3, 5 if th else 4))
     ctx.exhaustive = True
     ctx.assumptions += [
         "a location is identified by its url; the data center of a url does not change within an execution",
